@@ -186,6 +186,11 @@ class ISD(model.Document):
 
   def _region_always_has_background(region: typing.Type[model.Region]) -> bool:
 
+    # animation steps can make the background of the region visible at any time
+
+    if next(region.iter_animation_steps(), None) is not None:
+      return True
+
     if region.get_style(styles.StyleProperties.Opacity) == 0:
       return False
 
